@@ -406,6 +406,10 @@ def c18(tier, seed, replay=None):
     for modes in (["fwd"], ["rev"], ["fwd", "rev"], ["rev", "fwd"]):
         for order in (1, 2, 3):
             jobs.append({"kind": "paths", "modes": modes, "order": order})
+    # default arguments (modes omitted), fresh and after an earlier default-argument call that raised for lack of a forward-mode rule
+    for order in (1, 2):
+        for pre in (False, True):
+            jobs.append({"kind": "paths", "modes": ["fwd", "rev"], "order": order, "default": True, "pre": pre})
     kinds = ["scalar", "array", "complex", "container", "matrix"]
     for arg in kinds:
         for mode in ("fwd", "rev"):
